@@ -242,3 +242,15 @@ Definition apk_v2_parse (vok : aval -> bool) (input_len sig_loc dir_loc : Z) (ga
   | None => Ok []
   | Some block => pairs vok (S (length block)) block
   end.
+
+(* ================================================================== apk: apkSigner.Verify, the digest comparison loop.
+   hashes has one entry per signedData.Digests entry; newMerkleHasher keeps that list as it is and Finish returns one digest per
+   entry of its list (blocks: make([][]byte, len(hashes))); the loop then indexes digests[i] for every i < len(Digests). *)
+Definition merkle_out_len (hashes : list Z) : Z := zlen hashes.
+Fixpoint digest_loop (n_out : Z) (i : Z) (ds : list Z) : result unit :=
+  match ds with
+  | [] => Ok tt
+  | _ :: r => if (i <? 0) || (n_out <=? i) then Panic P_SLICE else digest_loop n_out (i + 1) r     (* digests[i] *)
+  end.
+Definition verify_digests (hashes : list Z) : result Z :=
+  _ <- digest_loop (merkle_out_len hashes) 0 hashes ;; Ok (merkle_out_len hashes).
